@@ -292,7 +292,7 @@ func (l *lbCtx) loadLb(addr ssa.Value) int64 {
 // escape into calls or other memory.
 func (l *lbCtx) fieldElemLb(fa *ssa.FieldAddr) int64 {
 	st := fa.X.Type().Underlying().(*types.Pointer).Elem().Underlying().(*types.Struct)
-	key := namedTypeName(fa.X.Type()) + "." + st.Field(fa.Field).Name()
+	key := namedTypeName(fa.X.Type()) + "." + fname(st.Field(fa.Field))
 	if r, ok := l.fieldEl[key]; ok {
 		return r
 	}
